@@ -372,6 +372,7 @@ def tour_vm_only():
     these programs are judged on the compiler + VM against the specification only."""
     return [
         'import { trigger minute } from triggers;\nevent fn cb(elapsed: int) { println("cb", elapsed); }\nfn main() { trigger cb on minute(5); println("armed"); }',
+        'import { trigger minute } from triggers;\nevent fn tick(elapsed: int) { println(elapsed); }\nfn main() { let arm = fn() { trigger tick at minute(1); }; arm(); arm(); println("armed"); }',
         'import { trigger minute } from triggers;\nevent fn cb(elapsed: int) { println("cb", elapsed); }\nevent fn cb2(elapsed: int) { println("cb2"); }\nfn main() { for i in 0..3 { trigger cb on minute(i * 2); } trigger cb2 at minute(7); println("armed"); }',
     ]
 
